@@ -174,6 +174,7 @@ def run(ctx):
     # order_ appended only on successful insertion: R13.1 (re-evaluated)
     from . import C13
     sub = type(ctx)(ctx.prop, ctx.prog, ctx.tier)
+    sub._sharing = True
     C13.run(sub)
     n13 = 0
     for o in sub.obs:
